@@ -158,6 +158,7 @@ pub(crate) struct SSt {
 }
 
 pub(crate) const QCAP: usize = 4;
+const MAX_SYNC_REPEATS_PUB: usize = crate::common::concurrent::constants::MAX_SYNC_REPEATS;
 
 pub(crate) fn sbuild(cfg: &SCfg) -> SSt {
     let n = cfg.n;
@@ -1092,3 +1093,69 @@ fn s_admit_lemma(n: usize) {
 }
 sh!(s_admit_lemma_n1, s_admit_lemma(1));
 sh!(s_admit_lemma_n2, s_admit_lemma(2));
+
+// ================================================================================================
+// Several queued operations: apply_writes in queue order; one whole Inner::sync round
+// ================================================================================================
+/// queue = [Upsert(update of key 0: 3 -> 7), Remove(key 0)] (insert(k, v'); invalidate(k) without sync)
+fn l_apply_writes_update_then_remove() {
+    let st = sbuild(&sc(1, Some(20), true, WT_A, true, false, false, 1));
+    let g = st.g;
+    let inner = &*st.b.inner;
+    let (op, _) = st.b.do_insert_with_hash(Arc::new(0u8), IdH::h(0), Val { cls: 1, data: kani::any() });
+    assert!(st.b.write_op_ch.try_send(op).is_ok());
+    let kv = st.b.remove_entry(&0u8).unwrap();
+    assert!(st.b.write_op_ch.try_send(WriteOp::Remove(kv)).is_ok());
+    let mut counters = EvictionCounters::new(g.ec, g.ws);
+    {
+        let mut deqs = inner.deques.lock().expect("lock poisoned");
+        inner.apply_writes(&mut deqs, 2, &mut counters);
+        let (_, an, ok) = dq::walk::<KeyHashDate<u8>, { MAXN }>(&deqs.probation);
+        let (_, wn, wok) = dq::walk::<KeyDate<u8>, { MAXN }>(&deqs.write_order);
+        assert!(ok && wok && an == 0 && wn == 0, "C08,C11,C07: after applying update + removal no deque node of the key may remain");
+    }
+    assert!(st.b.write_op_ch.len() == 0, "C09: apply_writes must drain what it was asked to");
+    assert!(counters.entry_count == 0 && counters.weighted_size == 0, "C10,C07: update then invalidate of the only entry must leave the counters at zero");
+    assert!(inner.cache.get(&0u8).is_none(), "C07: invalidated key must stay gone after maintenance");
+    assert!(!st.ent[0].as_ref().unwrap().is_admitted(), "C10: removed entry still flagged admitted");
+    kani::cover!(true, "end reached");
+    std::mem::forget(st);
+}
+// not instantiated: out of memory (> 40 GB) -- with two queued ops the admission path of handle_upsert stays live
+// sh!(l_apply_writes_update_then_remove_q2, l_apply_writes_update_then_remove());
+#[allow(dead_code)] fn _keep_l_apply_writes() { l_apply_writes_update_then_remove() }
+
+/// one whole Inner::sync: a queued Hit of resident 0 and a queued insert of a new key that fits
+fn l_sync_round(ttl: bool, tti: bool) {
+    let st = sbuild(&sc(1, None, true, WT_A, ttl, tti, false, 1));
+    let g = st.g;
+    let inner = &*st.b.inner;
+    let ts = any_t();
+    kani::assume(le(ts, g.now));
+    assert!(st.b.read_op_ch.try_send(ReadOp::Hit(IdH::h(0), TrioArc::clone(st.ent[0].as_ref().unwrap()), inst(ts))).is_ok());
+    let nv = Val { cls: 1, data: kani::any() };
+    let (op, _) = st.b.do_insert_with_hash(Arc::new(1u8), IdH::h(1), nv);
+    assert!(st.b.write_op_ch.try_send(op).is_ok());
+    inner.sync(MAX_SYNC_REPEATS_PUB);
+    assert!(st.b.read_op_ch.len() == 0 && st.b.write_op_ch.len() == 0, "C09: sync must drain both queues");
+    let w1 = g.weigh(1, nv);
+    assert!(inner.entry_count.load() == 2 && inner.weighted_size.load() == g.ws + w1 as u64, "C10,C03: after sync the counters equal what is physically held");
+    let e1 = inner.cache.get(&1u8);
+    assert!(e1.is_some(), "C03: a new key in an unbounded cache must survive maintenance");
+    let e1 = TrioArc::clone(e1.unwrap().value());
+    assert!(e1.value == nv && e1.is_admitted() && !e1.is_dirty(), "C01,C10: the inserted entry is admitted with its value");
+    assert!(e1.last_modified() == Some(inst(g.now)) && e1.last_accessed() == Some(inst(g.now)), "C05,C06: deadlines of the new entry run from the insert");
+    let e0 = st.ent[0].as_ref().unwrap();
+    assert!(e0.last_accessed() == Some(inst(if le(g.la[0], ts) { ts } else { g.la[0] })), "C06,C03: the applied read moves last_accessed forward only");
+    {
+        let deqs = inner.deques.lock().expect("lock poisoned");
+        let (nodes, an, ok) = dq::walk::<KeyHashDate<u8>, { MAXN }>(&deqs.probation);
+        assert!(ok && an == 2 && nodes[0] == ao_ptr(e0) && nodes[1] == ao_ptr(&e1), "C12: recency order after sync = order in which maintenance applied reads then writes");
+    }
+    kani::cover!(true, "end reached");
+    std::mem::forget(e1);
+    std::mem::forget(st);
+}
+sh!(l_sync_round_plain, l_sync_round(false, false));
+// not instantiated: no verdict in 40 min once evict_expired runs after an admission
+// sh!(l_sync_round_expiry, l_sync_round(true, true));
